@@ -194,7 +194,7 @@ def stepCons (d : ConsDrv) (a : Acc) (s : Step) : ConsDrv × Acc :=
     let engine := (applyCC d.engine implRet).1
     let a := a.spec s.lineNo "C01.engine-equals-store" (fmtPairs (ofVals (canonVals engine)) == fmtPairs (ofVals (canonVals t.cc)))
     ({ d' with engine := engine }, a)
-  | "cmkconn" => ({ d with f := after }, cmpCons a s.lineNo (consStateOf d) after)
+  | "cmkconn" | "cchanclose" => ({ d with f := after }, cmpCons a s.lineNo (consStateOf d) after)
   | "cchaninit" =>
     let st := consStateOf d
     let connClient := fun (h : String) =>
